@@ -159,6 +159,9 @@ func (e *engine) buildVC(fn *ssa.Function, layer string) (*funcVC, error) {
 		localSorts: map[string]string{}, callCount: map[string]int{}, siteCount: map[string]int{}, matchedSites: map[*clause]bool{}, assumed: map[string]bool{}, layer: layer}
 	vc.ct = e.w.db.Contracts[fn.String()]
 	vc.icts = e.w.ifaceContractsFor(fn)
+	if vc.ct != nil && vc.ct.HeapWF {
+		vc.c.needWF = true
+	}
 	seen := map[string]bool{}
 	for _, ct := range vc.allContracts() {
 		for _, p := range ct.Safety {
@@ -490,7 +493,11 @@ func (e *engine) check(prop string) *checkResult {
 			todo = append(todo, o)
 		}
 	}
-	solveAll(todo, e.opts)
+	if e.tier == "quick" && os.Getenv("GRITSVC_NOINC") == "" {
+		solveAllQuick(todo, e.opts)
+	} else {
+		solveAll(todo, e.opts)
+	}
 	res.wall = time.Since(t0).Seconds()
 	return res
 }
